@@ -60,6 +60,19 @@ Theorem C15_session_total :
 Proof. exact session_fix_total. Qed.
 Print Assumptions C15_session_total.
 
+(** the repaired reader itself never panics, whatever it reads *)
+Theorem C15_fix_never_panics :
+  forall (fuel : nat) (w : world) (l : string), read_response Fix fuel w <> Panic l.
+Proof. exact read_response_fix_no_panic. Qed.
+Print Assumptions C15_fix_never_panics.
+
+(** both readers: a command that hits a closed pipe is never reported as written (solver.rs:236-245) *)
+Theorem C15_broken_pipe_is_error :
+  forall (v : variant) (fuel : nat) (w w1 : world) (u : unit) (w' : world),
+    pop_write w = (WBrokenPipe, w1) -> write_cmd v fuel w <> Ok u w'.
+Proof. exact broken_pipe_is_error. Qed.
+Print Assumptions C15_broken_pipe_is_error.
+
 (* ================================================================== sat_only_on_exact *)
 
 (** Both readers: [Sat]/[Unsat] is returned only when exactly one line was consumed and that line
